@@ -436,7 +436,7 @@ def run_case(ctx, cfg, ops, model, sample=True):
 def run(ctx):
     model = None if getattr(ctx, "model_unavailable", False) else leanproc.LeanProc(ID)
     try:
-        for i in range(ctx.n(220, 3000)):
+        for i in range(ctx.n(600, 8000)):
             r = ctx.rng("case", i)
             run_case(ctx, gen_cfg(r), gen_ops(r), model)
             if i % 25 == 24:
